@@ -10,14 +10,17 @@
 (***************************************************************************)
 EXTENDS Codes
 
-Tracked ==
+\* sz = [zeta, golomb, exp_golomb, rice, pi]: how many codes of each family are
+\* tracked (the const generics of CodesStats; defaults 10, 20, 10, 10, 10)
+DefaultSizes == [zeta |-> 10, golomb |-> 20, exp_golomb |-> 10, rice |-> 10, pi |-> 10]
+TrackedOf(sz) ==
     <<CUnary, CGamma, CDelta, COmega, CVByteBe>>
-    \o [i \in 1..10 |-> CZeta(i)]
-    \o [i \in 1..20 |-> CGolomb(FromInt(i))]
-    \o [i \in 1..10 |-> CExpGolomb(i - 1)]
-    \o [i \in 1..10 |-> CRice(i - 1)]
-    \o [i \in 1..10 |-> CPi(i + 1)]
-NT == Len(Tracked)
+    \o [i \in 1..sz.zeta |-> CZeta(i)]
+    \o [i \in 1..sz.golomb |-> CGolomb(FromInt(i))]
+    \o [i \in 1..sz.exp_golomb |-> CExpGolomb(i - 1)]
+    \o [i \in 1..sz.rice |-> CRice(i - 1)]
+    \o [i \in 1..sz.pi |-> CPi(i + 1)]
+NTOf(sz) == 5 + sz.zeta + sz.golomb + sz.exp_golomb + sz.rice + sz.pi
 
 \* length as a natural (the unary parts do not fit in TLC integers)
 CLenN(c, n) ==
@@ -26,14 +29,15 @@ CLenN(c, n) ==
       [] c.f = "golomb" -> LET qr == DivMod(n, c.b) IN Add(qr[1], FromInt(1 + LenMinBin(qr[2], c.b)))
       [] OTHER          -> FromInt(CLen(c, n))
 
-Empty == [total |-> <<>>, t |-> [i \in 1..NT |-> <<>>]]
-Update(s, n, count) == [total |-> Add(s.total, count),
-                        t |-> [i \in 1..NT |-> Add(s.t[i], Mul(CLenN(Tracked[i], n), count))]]
-Plus(a, b) == [total |-> Add(a.total, b.total), t |-> [i \in 1..NT |-> Add(a.t[i], b.t[i])]]
+Empty(sz) == [sz |-> sz, total |-> <<>>, t |-> [i \in 1..NTOf(sz) |-> <<>>]]
+Update(s, n, count) == [s EXCEPT !.total = Add(@, count),
+                                 !.t = LET tr == TrackedOf(s.sz)
+                                       IN  [i \in 1..NTOf(s.sz) |-> Add(s.t[i], Mul(CLenN(tr[i], n), count))]]
+Plus(a, b) == [a EXCEPT !.total = Add(@, b.total), !.t = [i \in 1..NTOf(a.sz) |-> Add(a.t[i], b.t[i])]]
 
-MinIdx(s) == CHOOSE i \in 1..NT : \A j \in 1..NT : Leq(s.t[i], s.t[j])
+MinIdx(s) == CHOOSE i \in 1..NTOf(s.sz) : \A j \in 1..NTOf(s.sz) : Leq(s.t[i], s.t[j])
 MinCost(s) == s.t[MinIdx(s)]
 \* any tracked code whose total is the minimum is a correct answer (ties are not ordered)
 SameTracked(a, b) == a.f = b.f /\ a.k = b.k /\ a.b = b.b
-BestOK(s, c, cost) == cost = MinCost(s) /\ \E i \in 1..NT : SameTracked(Tracked[i], c) /\ s.t[i] = cost
+BestOK(s, c, cost) == cost = MinCost(s) /\ \E i \in 1..NTOf(s.sz) : SameTracked(TrackedOf(s.sz)[i], c) /\ s.t[i] = cost
 =============================================================================
